@@ -12,6 +12,8 @@ to_tenmat, to_sptenmat, sptenmat.to_sptensor, from_array, gather_wrap_dims, khat
           rows from column 0 <-> rdims and columns from column 1 <-> cdims on both sides
   REP     full / double / to_tensor of Kruskal, Tucker, sum, sparse and matricised objects read every defining
           component (weights AND factors, core AND factors, subs AND vals AND shape, every part, data AND index sets)
+  IX-dom / IX-seq / IX-pair  on the sparse conversion paths (constructors, to_sptenmat, to_sptensor, full) index arrays address
+          the list they were computed for and subscripts / values stay aligned (path-sensitive, E4)
   IX-cnt  sparse results are built from subscripts and values with equal symbolic row counts
 Not decided: element-for-element equality; empty-side and single-nonzero values; numerics of the Kruskal / Tucker
 reconstruction.
@@ -51,7 +53,7 @@ def check(prog: Program, res: Result, tier: str) -> None:
         "numpy contracts: default order C for reshape/ravel/flatten/unravel_index/ravel_multi_index; transpose(x, p) semantics",
         "trusted row-helper contracts (DESIGN §1); operands well-formed (rows(subs) == rows(vals) == nnz)",
     ]
-    res.floors = {"EO-cls": 7, "EO-1": 19, "KR": 2, "INV": 1, "PS": 4, "REP": 18, "IX-cnt": 2}
+    res.floors = {"EO-cls": 7, "EO-1": 19, "KR": 2, "INV": 1, "PS": 4, "REP": 18, "IX-cnt": 2, "IX-dom": 2}
     for f in FUNCS:
         prog.func(f)
     sel = lambda fi: fi.short in FUNCS
@@ -64,6 +66,8 @@ def check(prog: Program, res: Result, tier: str) -> None:
     for cls, (req, methods) in REP.items():
         E.rep(prog, res, cls, req, methods)
     E.cnt_ctor(prog, res, sel)
+    from . import ix_common as I
+    I.ix_rules(prog, res, sel, ("IX-dom", "IX-seq", "IX-pair"))
     _matricise_roles(prog, res)
 
 
